@@ -350,15 +350,18 @@ CHECKS = {
                        "in a brand-new IndividualPatchContext; (d) lrufile op sequences (Seek x3 whences incl. out-of-range, Read, Reset) for chunk "
                        "sizes 1..70 and capacities 1..8 against a []byte model; (e) hand-built valid control series over a 40MiB old file (beyond "
                        "the patcher's 32MiB cache) with far seeks. Oracles: exactly one end-of-series message, last; sum(add+copy)==len(new); "
-                       "reference applier == new; PatchContext.Patch == new; resumed remainder equal; cache bytes/offsets == model."),
+                       "reference applier == new; PatchContext.Patch == new; two independent PatchContexts applying the series at the same time (yielding writers) == new each, also under the race detector; "
+                       "resumed remainder equal; cache bytes/offsets == model."),
         "level_note": "the bsdiff worker pipeline's schedules are sampled via GOMAXPROCS only; a panic inside its goroutines kills the process and is reported from the journal.",
         "rule": ("enumerated cases are distinct by construction; generated ones by SHA-1 of the spec. Non-trivial: >=2 controls with a non-zero "
                  "seek (diff stages); an op sequence that touches more chunks than the cache holds (lrufile); >=2 steps (far seeks)."),
         "assumptions": ["old-file readers never return short reads (bytes.Reader), the contract lrufile documents"],
         "required_classes": {"quick": ["old:empty", "new:empty", "new:shorter-than-partitions", "old:shorter-than-partitions", "cache:evictions", "seek:out-of-range", "old:>32MiB-cache"],
                              "thorough": ["old:empty", "new:empty", "new:shorter-than-partitions", "old:shorter-than-partitions", "cache:evictions", "seek:out-of-range", "old:>32MiB-cache", "size:>1MiB"]},
+        "replay_race": False,
         "stages": [enum("enum", "TestEnum", qs=16, ts=16, qt=600, tt=5400),
                    rapid("random", "TestRandom", 1600, 96000, qs=16, ts=16, qt=600, tt=5400),
+                   rapid("randomrace", "TestRandom", 160, 3200, qs=8, ts=16, qt=900, tt=5400, race=True, schedule_dependent=True, shrinktime="10s"),
                    rapid("lrufile", "TestLru", 40000, 4800000, qs=4, ts=16, qt=600, tt=5400),
                    rapid("farseeks", "TestFar", 8, 160, qs=4, ts=8, qt=600, tt=5400, shrinktime="10s")],
     },
